@@ -3,7 +3,7 @@ import copy
 
 from hypothesis import strategies as st
 
-from pbt.common import env, runner, snap, fresh as F, spec as S, gen as G
+from pbt.common import env, runner, snap, fresh as F, spec as S, gen as G, edits as E, machine as M
 
 env.import_efootprint()
 
@@ -81,7 +81,15 @@ def cases(draw):
             alts = []
         if alts:
             changes.append([n, a, draw(st.sampled_from(alts))])
-    return {"spec": spec, "id_seed": draw(st.integers(0, 2 ** 20)), "mode": mode, "reexpress": changes}
+    live = None
+    if changes and draw(st.floats(0, 1)) < 0.4:
+        # the same re-expression applied to the live model: one by one or in one grouped update, possibly together
+        # with a real change of another input
+        real = draw(G.quantity_edit(spec)) if draw(st.booleans()) else None
+        if real is not None and any(real["obj"] == n and real["attr"] == a for n, a, _ in changes):
+            real = None
+        live = {"grouped": draw(st.floats(0, 1)) < 0.7, "real": real, "real_pos": draw(st.integers(0, len(changes)))}
+    return {"spec": spec, "id_seed": draw(st.integers(0, 2 ** 20)), "mode": mode, "reexpress": changes, "live": live}
 
 
 def check(case, ctx):
@@ -134,7 +142,52 @@ def check(case, ctx):
         ctx.violation("unit_dependent_result", case,
                       "re-expressing %s changes %d calculated attribute(s); first: %s %s" % (
                           case["reexpress"][:4], len(diffs), diffs[0][0], diffs[0][1]), sig)
+    if case.get("live") and not diffs:
+        live_reexpression(case, ctx, spec, spec2, a_objs, labels)
     ctx.case(case, nontrivial, labels, sample={"reexpress": case["reexpress"][:6], "mode": case["mode"]})
+
+
+def live_reexpression(case, ctx, spec, spec2, objs, labels):
+    """Re-express the inputs of the live model (and possibly change one other input): same as a fresh build."""
+    lv = case["live"]
+    edits = [dict(op="q", obj=n, attr=a, val=list(spec2["objs"][n][a])) for n, a, _ in case["reexpress"]]
+    if lv["real"] is not None:
+        edits.insert(min(lv["real_pos"], len(edits)), lv["real"])
+    target = spec
+    for e in edits:
+        target = E.apply_spec(target, e)
+    fresh, exc = F.build_case({"spec": target, "id_seed": case["id_seed"] + 1})
+    if fresh is None:
+        labels.append("live_target_invalid")
+        return
+    labels.append("live_grouped" if lv["grouped"] else "live_one_by_one")
+    if lv["real"] is not None:
+        labels.append("live_with_real_change")
+    try:
+        with M.watchdog():
+            cur = spec
+            if lv["grouped"] and len(edits) > 1:
+                E.apply_live(objs, dict(op="group", edits=edits), cur)
+            else:
+                for e in edits:
+                    E.apply_live(objs, e, cur)
+                    cur = E.apply_spec(cur, e)
+    except Exception as ex:
+        ctx.violation("unit_dependent_acceptance", case,
+                      "re-expressing %s%s on the live model (%s) raised %s: %s although a system built with these "
+                      "values is valid" % (case["reexpress"][:4], " and changing %s.%s" % (
+                          lv["real"]["obj"], lv["real"]["attr"]) if lv["real"] else "",
+                          "one update" if lv["grouped"] else "one by one", type(ex).__name__, str(ex)[:200]),
+                      {"kind": "unit_dependent_acceptance", "site": "live"})
+        return
+    d = snap.compare(snap.snapshot(S.reachable(objs)), snap.snapshot(S.reachable(fresh)))
+    if d:
+        ctx.violation("unit_dependent_result", case,
+                      "after re-expressing %s%s on the live model (%s) %d calculated attribute(s) differ from a fresh "
+                      "build; first: %s %s" % (case["reexpress"][:4], " and changing %s.%s" % (
+                          lv["real"]["obj"], lv["real"]["attr"]) if lv["real"] else "",
+                          "one update" if lv["grouped"] else "one by one", len(d), d[0][0], d[0][1]),
+                      {"kind": "unit_dependent_result", "site": "live"})
 
 
 def replay(case, ctx):
